@@ -141,7 +141,11 @@ def run(prop, tier):
                         mcv = ch + c + v
                         if mcv in by_mcv:
                             continue
-                        for pay in (b"", bytes(16)):
+                        pays = [b"", bytes(16)]
+                        if ch == "O" and c == "M":
+                            # a well-formed mark payload (non-zero value) for the stack type 0 and the single type 1
+                            pays += [i64(1) + i32(0), i64(1) + i32(1)]
+                        for pay in pays:
                             probes.append(Ev(A, mcv, pay))
                             meta.append(mcv)
                 tasks = [(prefix, probes[i:i + 600]) for i in range(0, len(probes), 600)]
@@ -234,6 +238,40 @@ def run(prop, tier):
                             {"engine": "E3", "model": model, "mcv": m_, "thread_state": cname, "prefix": [e.line() for e in prefix + cpre]},
                             {"kind": "listed-never-accepted", "mcv": m_, "thread_state": cname})
                 ctx.add(evaluations=nctx, transitions=nctx, states=nstates)
+                # ---- (B2) legality does not wear off: an event (or enter/leave pair) that is accepted twice in a row
+                # is still accepted the 150th (thorough: 400th) time
+                reps = 150 if tier == "quick" else 400
+                tasks, meta2 = [], []
+                first = pool.expand_many([(prefix, [ev for (m_, ev) in cand])])[0]
+                if first[0].get("ok"):
+                    okev = [(m_, ev) for (m_, ev), r in zip(cand, first[1]) if r.ok]
+                    second = pool.expand_many([(prefix + [ev], [ev]) for (m_, ev) in okev])
+                    done_m = set()
+                    for (m_, ev), (hres, pres) in zip(okev, second):
+                        if m_ in done_m or not hres.get("ok"):
+                            continue
+                        if pres[0].ok:
+                            done_m.add(m_)
+                            tasks.append((prefix + [ev] * reps, [ev]))
+                            meta2.append((m_, "x%d" % reps))
+                    # enter/leave pairs (golden table): (enter, leave) repeated
+                    gold = catalog.golden("enter_values.json")["enter"]
+                    for m_, g in sorted(gold.items()):
+                        if m_[0] == ch and m_ in by_mcv and not by_mcv[m_].args and g["leave"] in by_mcv and not by_mcv[g["leave"]].args:
+                            tasks.append((prefix + [Ev(A, m_), Ev(A, g["leave"])] * (reps // 2), [Ev(A, m_)]))
+                            meta2.append((m_, "pair x%d" % (reps // 2)))
+                    for (m_, how), (hres, pres) in zip(meta2, pool.expand_many(tasks)):
+                        ctx.add(evaluations=1, transitions=reps)
+                        bad = None
+                        if not hres.get("ok"):
+                            bad = "repetition %d refused: %s" % (hres.get("fail_index", -1) - len(prefix) + 1, hres.get("msg"))
+                        elif not pres[0].ok:
+                            bad = "refused after %s: %s" % (how, pres[0].msg)
+                        if bad:
+                            ctx.violation("model %s: listed event %s is accepted twice in a row but %s" % (model, m_, bad),
+                                          {"engine": "E3", "model": model, "mcv": m_, "repetitions": how, "prefix": [e.line() for e in prefix]},
+                                          {"kind": "listed-wears-off", "mcv": m_})
+                    ctx.part("repeat-" + model, events=len(meta2), repetitions=reps)
                 ctx.part("model-" + model, listed=len(by_mcv), unlisted_codes_probed=k, context_probes=nctx, legacy=sorted(legacy & set(ch + c + v for c in PRINTABLE for v in PRINTABLE)))
             finally:
                 pool.close()
@@ -277,7 +315,7 @@ def run(prop, tier):
         ctx.sample({"ovnidump": "OHx(i32 cpu, i32 tid, u64 tag) with values -1 -> 'begins the execution on CPU -1 created from -1 with tag 0xffffffffffffffff'"})
         ctx.cov["rule"] = ("for each of the 8 models: all 94x94 printable (category,value) codes not listed by ovnievents, without payload and with a 16-byte payload, "
                            "probed on a running thread with the model enabled (must be refused, except OB?/OU? and the frozen legacy list); every listed event searched "
-                           "for an accepting context (on a running thread; for nOS-V and Nanos6 also on a cooling and on a warming thread) by BFS over sequences of <= 3 listed events with arguments from {existing id, new id, 0}; every listed event x "
+                           "(OM? also with well-formed mark payloads for a stack and a single type); every listed event searched for an accepting context (on a running thread; for nOS-V and Nanos6 also on a cooling and on a warming thread) by BFS over sequences of <= 3 listed events with arguments from {existing id, new id, 0}; every listed event x "
                            "5 argument values decoded by the real ovnidump and compared with an independent formatter; ovnievents vs documentation")
         ctx.cov["distinct_nontrivial"] = nunlisted
         ctx.cov["unlisted_codes_probed"] = nunlisted
